@@ -849,6 +849,62 @@ def is_subsequence(xs, ys):
     return all(any(x == y for y in it) for x in xs)
 
 
+# ------------------------------------------------------------------ finding F-C04-4: overlapping lookups
+RACE_TABLE = [(0, 0, 7), (1, 0, 10), (18, 0, 2)]
+
+
+def probe_overlap_race(x_outcome=(1,)):
+    """Overlapping lookups on the real KafkaClient + Producer:
+    lookup X (a consumer's first fetch) and lookup Y (the producer's) overlap; Y is answered with a table, the
+    producer sends Produce v2 / format 1; the broker answers NotLeaderForPartition, the producer schedules a retry of
+    the SAME payloads; X ends with x_outcome ((1,) = KafkaUnavailableError: F-C04-4, repaired by 276cfa2;
+    (0, 35, []) = an answer carrying an error code: F-C04-5, repaired by 8e462bd);
+    the retry goes out.  Returns (observed, trace)."""
+    from twisted.internet import defer
+    from afkak.kafkacodec import KafkaCodec
+    from afkak.producer import Producer
+    sc = ScriptedClient(True)
+    del sc.client._send_broker_aware_request
+    frames = []
+
+    def make_request(broker, correlationId, request, expectResponse=True, min_timeout=None):
+        d = defer.Deferred()
+        frames.append((correlationId, bytes(request), d))
+        return d
+    sc.client._make_request_to_broker = make_request
+    sc.client._get_brokerclient = lambda node_id: object()
+    give_topic(sc.client, "t", (0,))
+    watch(sc.client.get_api_version(KafkaCodec.FETCH_KEY))           # lookup X
+    prod = Producer(sc.client)
+    watch(prod.send_messages("t", msgs=[b"a"]))                      # lookup Y
+    trace = {"outstanding_lookups": len(sc.unaware)}
+    if len(sc.unaware) != 2:
+        return False, trace
+    x, y = sc.unaware[0], sc.unaware[1]
+    sc.deliver(y, (0, 0, RACE_TABLE))
+    trace["cell_after_Y_answered"] = repr(sc.client._api_versions)
+    if not frames:
+        return False, trace
+    r = KS.parse_request(frames[0][1])
+    trace["frame1"] = None if r is None else {"version": r["version"], "magics": KS.magics(r)}
+    resp = (struct.pack(">ii", frames[0][0], 1) + struct.pack(">h", 1) + b"t" + struct.pack(">i", 1)
+            + struct.pack(">ihqq", 0, 6, -1, -1) + struct.pack(">i", 0))      # NotLeaderForPartition
+    frames[0][2].callback(resp)
+    sc.deliver(x, x_outcome)
+    trace["cell_after_X_ended"] = repr(sc.client._api_versions)
+    give_topic(sc.client, "t", (0,))                                 # the metadata refresh after NotLeader
+    sc.clock.advance(10)
+    trace["retry_frames"] = []
+    observed = False
+    for _cid, fr, _d in frames[1:]:
+        r = KS.parse_request(fr)
+        ok = r is not None and KS.format_matches_version(r)
+        trace["retry_frames"].append({"bytes": list(fr), "version": r and r["version"], "magics": r and KS.magics(r),
+                                      "format_matches_version": ok})
+        observed = observed or not ok
+    return observed, trace
+
+
 # ------------------------------------------------------------------ the check
 def run(ck):
     vlib.import_repo()
@@ -1021,7 +1077,7 @@ def run(ck):
     if diffs and not ck.violations:
         i = diffs[0]
         ck.violation({"kind": "correspondence broken", "correspondence": "corr:req:events",
-                      "theorems_no_longer_tied": ["C04_choice_consistent_always"],
+                      "theorems_no_longer_tied": ["C04_choice_consistent_always", "C04_resolved_state_final"],
                       "discovery": meta[i][0], "events": meta[i][1], "impl": impl[i], "model": mo[i], "replay_op": "none"}, no_input=True)
 
     # ---- 4. end to end: Producer -> KafkaClient -> frames, parsed by both grammar parsers
@@ -1079,6 +1135,21 @@ def run(ck):
         ck.violation({"kind": "the two independent grammar parsers disagree on a captured frame (verification machinery)",
                       "case": sp_cases[i][:300], "python": sp_impl[i][:300], "coq": mo[i][:300]}, no_input=True)
 
+    # ---- 5. finding probes: overlapping lookups, the real client and producer
+    observed, trace = probe_overlap_race((1,))
+    ck.finding("F-C04-4", observed,
+               "overlapping version lookups: a lookup failing (KafkaUnavailableError) after another one stored the broker's table "
+               "overwrites it with the fallback 0; a produce retry of payloads built in format 1 goes out as Produce v0 carrying magic-1 messages",
+               {"kind": "Produce v0 carrying format-1 messages after overlapping version lookups (lookup failed)", "trace": trace,
+                "theorem": "C04_resolved_state_final", "replay_op": "race", "x_outcome": [1]})
+    observed, trace = probe_overlap_race((0, 35, []))
+    ck.finding("F-C04-5", observed,
+               "overlapping version lookups: a lookup ANSWERED with an error code after another one stored the broker's table overwrites "
+               "it with the fallback 0 (client.py:825,856-860); a produce retry of payloads built in format 1 goes out as Produce v0 "
+               "carrying magic-1 messages",
+               {"kind": "Produce v0 carrying format-1 messages after overlapping version lookups (error answer)", "trace": trace,
+                "theorem": "C04_resolved_state_final", "replay_op": "race", "x_outcome": [0, 35, []]})
+
     if ck.tier == "thorough":
         ck.coqchk(["AV.Props.C04"])
     ck.cov["rule"] = (
@@ -1128,5 +1199,11 @@ def replay(rp):
         print("observed now [1 produce_arg produce_header produce_decoder fetch_arg fetch_header fetch_decoder magic]:", tr)
         print("recorded verdict:", rp.get("kind"))
         return 1
+    if op == "race":
+        xo = rp.get("x_outcome", [1])
+        observed, trace = probe_overlap_race(tuple(xo[:2]) + (([tuple(e) for e in xo[2]],) if len(xo) > 2 else ()))
+        print(json.dumps(trace, indent=1, default=repr)[:4000])
+        print("Produce v0 carrying format-1 messages observed now:", observed)
+        return 1 if observed else 0
     print(json.dumps(rp, indent=1, default=repr)[:6000])
     return 1
